@@ -145,7 +145,9 @@ impl RtpsStatefulWriter {
                 .iter_mut()
                 .find(|x| x.remote_reader_guid() == reader_guid)
             {
+                // RTPS 8.3.7.1.3: an ACKNACK is invalid if readerSNState is invalid (bitmapBase < 1)
                 if reader_proxy.reliability() == ReliabilityKind::Reliable
+                    && acknack_submessage.reader_sn_state().base() >= 1
                     && acknack_submessage.count() > reader_proxy.last_received_acknack_count()
                 {
                     let acked_changes = acknack_submessage.reader_sn_state().base() - 1;
